@@ -1118,6 +1118,11 @@ class MachineNode(StateNode[TContext, TEvent]):
             InvalidConfigError: If the machine configuration lacks a root 'id'.
         """
         # 🛡️ The root of any machine must have a non-empty ID.
+        if not isinstance(config, dict):
+            raise InvalidConfigError(
+                "❌ Machine configuration must be a dictionary, got "
+                f"'{type(config).__name__}'."
+            )
         if not config.get("id"):
             raise InvalidConfigError(
                 "❌ Machine configuration must have a root 'id'."
